@@ -88,6 +88,9 @@ def check(ctx):
             if st != "ok":
                 ctx.fail("expected shortfall raised on a valid sample", case, key="expected_shortfall:error", detail=v)
                 continue
+            if not all(math.isfinite(z) for z in flat(v)):
+                ctx.fail("expected shortfall is not finite on a finite sample", case, key="expected_shortfall:nonfinite", detail=flat(v))
+                continue
             got = [F(z) for z in flat(v)]
             ks = {k} if not border else {math.floor(pn), math.ceil(pn), int(round(pn))} - {0}
             exps = [[es_exact(kk, c) for c in shifted] for kk in ks]
@@ -258,6 +261,9 @@ def check(ctx):
             ctx.traces += 1
             if st != "ok":
                 ctx.fail("OCE raised on a valid sample", case, key="oce:error", detail=v)
+                continue
+            if not all(math.isfinite(z) for z in flat(v.detach())):
+                ctx.fail("OCE is not finite on a finite sample", case, key="oce:nonfinite")
                 continue
             got = [F(z) for z in flat(v.detach())]
             exp = [w0 - sum(uf(z + w0) for z in col) / len(col) for col in shifted]
